@@ -85,7 +85,18 @@ fn build(label: &str, enc: [Enc; 3], full_range: bool, start_tick: i32) -> World
     let mut late = vec![Op::Inc { pos: 1, liq: stdworlds::BIG / 3, v2: true }, Op::Inc { pos: 2, liq: stdworlds::BIG, v2: false }];
     late.push(Op::Swap { a_to_b: false, exact_in: true, amount: 3_000_000, lim: Lim::None, v2: false });
     late.push(Op::Swap { a_to_b: true, exact_in: true, amount: 1_000_000, lim: Lim::None, v2: true });
+    // A lower bound initialised *after* the shared upper bound collected fees above it: the new position's fee growth inside
+    // starts as a wrapped "negative" u128 (below + above > global) and passes through zero as in-range fees accrue.
+    let reinit = vec![
+        Op::Inc { pos: 1, liq: stdworlds::BIG / 3, v2: true },
+        Op::Inc { pos: 2, liq: stdworlds::BIG, v2: false },
+        Op::Swap { a_to_b: false, exact_in: true, amount: 3_000_000, lim: Lim::None, v2: true }, // up across 128, fees accrue above it
+        Op::Swap { a_to_b: true, exact_in: true, amount: u64::MAX >> 8, lim: Lim::NextTick, v2: false }, // back down onto 128
+        Op::Dec { pos: 1, part: Part::All, v2: true }, // de-initialises -128 (128 stays initialised through position 2)
+        Op::Inc { pos: 0, liq: stdworlds::BIG, v2: false }, // -128 is initialised afresh
+    ];
     let prefixes = vec![
+        ("reinit-lower".to_string(), l.clone(), reinit),
         ("funded".to_string(), l.clone(), fund.clone()),
         ("near-wrap".to_string(), lw, fund.clone()),
         ("mid-accumulator".to_string(), lm, fund),
